@@ -11,6 +11,7 @@ import (
 	"fmt"
 	"runtime"
 	"sync"
+	"time"
 
 	"github.com/nspcc-dev/neofs-node/verif/lib/ev"
 )
@@ -70,8 +71,29 @@ func (c *Config) names(path []uint8) []string {
 	return r
 }
 
+// OpTimeout is the liveness watchdog limit for replaying one path plus one operation.
+var OpTimeout = 180 * time.Second
+
 // Replay runs a path (as op names) on a fresh instance and returns the first oracle failure.
 func Replay(cfg Config, names []string) (fp, what string, err error) {
+	type res struct {
+		fp, what string
+		err      error
+	}
+	ch := make(chan res, 1)
+	go func() {
+		fp, what, err := replay(cfg, names)
+		ch <- res{fp, what, err}
+	}()
+	select {
+	case x := <-ch:
+		return x.fp, x.what, x.err
+	case <-time.After(OpTimeout):
+		return "operation-did-not-return", fmt.Sprintf("replaying %v did not finish within %v", names, OpTimeout), nil
+	}
+}
+
+func replay(cfg Config, names []string) (fp, what string, err error) {
 	idx := map[string]int{}
 	for i := 0; i < cfg.NumOps; i++ {
 		idx[cfg.OpName(i)] = i
@@ -142,6 +164,14 @@ func Run(r *ev.Run, cfg Config) Result {
 					path := frontier[i]
 					ss := make([]succ, 0, cfg.NumOps)
 					for op := 0; op < cfg.NumOps; op++ {
+						// liveness watchdog: an operation of the real object that does not return at all (a
+						// deadlock in the code under test) is reported instead of hanging the check; the limit
+						// is orders of magnitude above the milliseconds a replayed path takes
+						np := append(append(make([]uint8, 0, len(path)+1), path...), uint8(op))
+						wd := time.AfterFunc(OpTimeout, func() {
+							r.Violation("operation-did-not-return", fmt.Sprintf("replaying %v on a fresh instance did not finish within %v (last operation %s)", cfg.names(np), OpTimeout, cfg.OpName(op)), map[string]any{"ops": cfg.names(np)})
+							r.Finish()
+						})
 						s := cfg.New()
 						for _, o := range path {
 							s.Apply(int(o))
@@ -149,11 +179,13 @@ func Run(r *ev.Run, cfg Config) Result {
 						obs, ok := s.Apply(op)
 						if !ok {
 							s.Close()
+							wd.Stop()
 							continue
 						}
 						fp, what := s.Check()
 						ss = append(ss, succ{op: op, key: hashKey(s.Key()), obs: obs, fp: fp, what: what, ok: true})
 						s.Close()
+						wd.Stop()
 					}
 					out[i] = ss
 				}
